@@ -360,6 +360,12 @@ def run(ctx):
             okk = okk and any("inheritEnvironment" in a and p for a, p in st)
         r.check(okk, "%s|env-precedence" % q, "%s" % roles, "environment assembled in order %s, expected %s" % (roles, want), g)
 
+    r_status_decode(prog, rep)
+    r_eintr_retry(prog, rep)
+
+
+def r_status_decode(prog, rep):
+    """shared with C10: a child's real fate is the first link of the failure chain (exit status, fatal signal -> Failed)."""
     # ---------------------------------------------------------------- exit status
     r = rep.rule("R-STATUS-DECODE", "exit-status mapping: exit 0 -> Succeeded; killed by SIGINT/SIGKILL -> Cancelled; anything else -> Failed; "
                                     "spawn failure -> Failed; cancelled before spawn -> Cancelled", floor=3)
@@ -409,6 +415,31 @@ def run(ctx):
     r.check(ok, "spawnProcess|not-launched-status", "", "not-launched result is not (wasCancelled ? Cancelled : Failed)", f)
     fails = [c for c in f.calls("ProcessResult::makeFailed")]
     r.check(len(fails) >= 3, "spawnProcess|spawn-error-failed", "%d sites" % len(fails), "spawn errors no longer map to Failed", f)
+
+
+def r_eintr_retry(prog, rep):
+    r = rep.rule("R-EINTR-RETRY", "the blocking calls that wait for a child (wait4) or for its output (poll) are retried when a signal handler interrupts them: the call sits in "
+                                  "a loop that tests errno against EINTR — otherwise an interrupted wait reports a running child as failed and never reaps it", floor=2)
+    EINTR = 4
+    for callee, fname in (("wait4", "cleanUpExecutedProcess"), ("poll", "spawnProcess")):
+        f = prog.fn(fname)
+        calls = [c for c in f.calls() if (c.get("fn") or "") == callee]
+        if not calls:
+            raise AnalysisBroken("%s no longer calls %s" % (fname, callee))
+        ok = False
+        for c in calls:
+            lp = next((a for a in f.ancestors(c) if a.get("k") in ("while", "do", "for")), None)
+            if lp is None:
+                continue
+            errno_locals = set(v["did"] for d in f.nodes if d.get("k") == "decl" for v in d.get("vars", []) if "init" in v and "__errno_location" in expr_str(f.nodes[v["init"]]))
+            for x in lp.walk():
+                if x.get("k") == "bin" and x.get("op") in ("==", "!="):      # `== EINTR -> again` or `!= EINTR -> give up`
+                    l_, r_ = core(x.child("l")), core(x.child("r"))
+                    for a_, b_ in ((l_, r_), (r_, l_)):
+                        if b_ is not None and b_.get("k") == "int" and b_.get("v") == EINTR and a_ is not None and \
+                                ("__errno_location" in expr_str(a_) or (a_.get("k") == "ref" and a_.get("did") in errno_locals)):
+                            ok = True
+        r.check(ok, "%s|%s-retried-on-EINTR" % (fname, callee), "", "%s is not retried when it fails with EINTR: a signal delivered to the waiting thread ends the wait" % callee, f, calls[0])
 
 
 def cfg_order(fn, n):
@@ -590,4 +621,6 @@ VARIANTS = [
          old="    auto result = wasCancelled ? ProcessResult::makeCancelled() : ProcessResult::makeFailed();\n    completionFn(result);",
          new="    auto result = wasCancelled ? ProcessResult::makeCancelled() : ProcessResult::makeFailed();\n    auto& r2 = result;\n    completionFn(r2);",
          expect=None),
+    dict(name="wait-retried-on-eagain-only", file="lib/Basic/Subprocess.cpp", old="  while (result == -1 && errno == EINTR)", new="  while (result == -1 && errno == EAGAIN)", expect=("R-EINTR-RETRY", "wait4-retried-on-EINTR")),
+    dict(name="poll-not-retried-on-eintr", file="lib/Basic/Subprocess.cpp", old="        if (err == EAGAIN || err == EINTR) {", new="        if (err == EAGAIN) {", expect=("R-EINTR-RETRY", "poll-retried-on-EINTR")),
 ]
